@@ -686,6 +686,9 @@ class Emitter:
                 # vocabulary `index`: {type name: callable(em, e, base term, base type, env, k)}
                 return hook(self, e, base, bty, env1, k)
             elt = bty[1] if bty[0] == "list" else UNKNOWN
+            if e.idx.kind == "range" and e.idx.lo is None and e.idx.hi is None and bty[0] == "list":
+                # `x[..]`: the whole slice (cannot panic)
+                return k(base, bty, env1)
             if e.idx.kind == "range":
                 sl_fn, sl_ty = "slice", bty
                 if bty[0] == "struct" and self.v["structs"][bty[1]].get("index_range"):
@@ -1389,6 +1392,8 @@ class Emitter:
                 inner = ty[2] if name == "Err" else ty[1]
                 name = self.v["result"]["err" if name == "Err" else "ok"]
             return "(%s %s)" % (name, " ".join(self.coq_pattern(x, inner, binds) for x in p.elems))
+        if k == "ptuple" and not p.elems:
+            return "tt"      # the unit pattern `()`
         if k == "ptuple":
             tys = ty[1] if ty[0] == "tuple" and len(ty[1]) == len(p.elems) else [UNKNOWN] * len(p.elems)
             return "(" + ", ".join(self.coq_pattern(x, t, binds) for x, t in zip(p.elems, tys)) + ")"
@@ -1449,6 +1454,9 @@ class Emitter:
             if any(t is None for t in ts):
                 return None
             return "(" + " || ".join(ts) + ")"
+        if k == "prest" or (k == "ptuple" and not p.elems):
+            # `Err(..)`, `Ok(())`: nothing to test, nothing bound
+            return None
         if k == "ptuple":
             raise EmitError("nested tuple pattern in an if-chain match")
         raise EmitError("pattern %s in an if-chain match" % k)
@@ -1788,7 +1796,17 @@ class Emitter:
                     p = p.inner
                 binds = []
                 tests = []
-                if p.kind == "ptstruct" and p.segs[-1] in ("Ok", "Err") and len(p.elems) == 1:
+                if p.kind == "por" and all(a.kind == "pwild" or (a.kind == "ptstruct" and a.segs[-1] in ("Ok", "Err") and len(a.elems) == 1) for a in p.alts):
+                    # `Err(_) | Ok(_) => ..`: the alternatives of this side, none of which may bind a variable
+                    mine = [a for a in p.alts if a.kind == "pwild" or a.segs[-1] == tag]
+                    if not mine:
+                        return arm(j + 1)
+                    alt_tests = [None if a.kind == "pwild" else self.pat_test(a.elems[0], v, inner, binds) for a in mine]
+                    if binds:
+                        raise EmitError("an or-pattern that binds a variable in a match on a Result")
+                    if all(t is not None for t in alt_tests):
+                        tests.append("(" + " || ".join(alt_tests) + ")")
+                elif p.kind == "ptstruct" and p.segs[-1] in ("Ok", "Err") and len(p.elems) == 1:
                     if p.segs[-1] != tag:
                         return arm(j + 1)
                     tt = self.pat_test(p.elems[0], v, inner, binds)
@@ -1868,6 +1886,9 @@ class Emitter:
 
     def e_call(self, e, env, k):
         f = e.f
+        if f.kind != "path" and self.v.get("call_value"):
+            # optional vocabulary key `call_value`: callable(em, e, env, k) -- the call of a VALUE (`(self.writer)(x)`)
+            return self.v["call_value"](self, e, env, k)
         if f.kind != "path":
             raise EmitError("call of a non-path expression")
         name = f.segs[-1]
